@@ -5,7 +5,10 @@ import InTotoModel.Lemmas.Verify
   Model: `InToto.Verify.verify`.  Hypotheses made explicit:
   * `GlobSafe`: step names without glob metacharacters or `/` (otherwise the model answers
     `err 99` = outside the model, so success already implies it);
-  * `hnames`: step names are pairwise distinct (the code files evidence in a map keyed by step name);
+  * `hnames`: step names are pairwise distinct (the code files evidence in a map keyed by step name) -
+    a hypothesis of the first statement only: since the repair of the repeated-step-name defect a
+    successful verification implies it (`c02_success_implies_distinct_step_names`,
+    `c02_every_step_has_authorized_evidence_whatever_the_names`);
   * `hkeys`: the layout's key table files every key under its own intrinsic id (guaranteed for parsed
     layouts by the parser's filter and for built ones by `add_key`; C12).
 -/
@@ -97,6 +100,34 @@ theorem c02_only_listed_keys_count {env : Env K} {ord : Ord} (L : Layout K) (st 
   rcases (goodLinks_spec env ord L st links []).1 e he with h | ⟨_, hpk, k, _, hk, _⟩
   · simp at h
   · exact ⟨hpk, k, hk⟩
+
+/-- Verification succeeds only on layouts whose step names are pairwise distinct (evidence is filed by
+    step name; a second step of the same name is an error since fix `duplicate step names`). -/
+theorem c02_success_implies_distinct_step_names {env : Env K} {ord : Ord}
+    {fuel : Nat} {path : List Str} {b : Block K} {keys : List K} {dir : Dir K} {name : Str} {s : Link}
+    (h : (verify env ord fuel path b keys dir name).1 = .ok s)
+    (L : Layout K) (hb : b.signed = .layout L) : (L.steps.map Step.name).Nodup := by
+  obtain ⟨f, rfl⟩ := verify_ok_fuel h
+  obtain ⟨p⟩ := verify_ok_inv h
+  have hL : p.L = L := by
+    have := (verifyBlockK_ok p.hsig).1
+    rw [hb] at this
+    cases this
+    rfl
+  rw [← hL]
+  exact (verifyThresholds_names env ord p.L p.loaded p.L.steps [] p.hthr).2
+
+/-- `c02_every_step_has_authorized_evidence` without the hypothesis on step names. -/
+theorem c02_every_step_has_authorized_evidence_whatever_the_names {env : Env K} {ord : Ord} (hord : ord.Valid)
+    {fuel : Nat} {path : List Str} {b : Block K} {keys : List K} {dir : Dir K} {name : Str} {s : Link}
+    (h : (verify env ord fuel path b keys dir name).1 = .ok s)
+    (L : Layout K) (hb : b.signed = .layout L)
+    (hkeys : ∀ id k, lookup id L.keys = some k → env.kidOf k = id) :
+    ∀ st ∈ L.steps, ∃ ids : List Str, ids.Nodup ∧ max 1 st.threshold ≤ ids.length ∧
+      ∀ id ∈ ids, id ∈ st.pubkeys ∧ ∃ k, lookup id L.keys = some k ∧
+        ∃ blk, FiledIn dir st.name id blk ∧
+          ∃ σ ∈ blk.sigs, σ.kid = id ∧ env.valid k blk.signed σ.val = true :=
+  c02_every_step_has_authorized_evidence hord h L hb (c02_success_implies_distinct_step_names h L hb) hkeys
 
 /-- A file counts only under a key id whose eight-character prefix is the one in the file's name
     and which one of the file's own signatures carries. -/
